@@ -275,7 +275,7 @@ def run(R):
         r = rng.random()
         step_seed = rng.randint(0, 10**9) if rng.random() < 0.8 else None
         prime = rng.random() < 0.5
-        err = rng.choice((None, None, 2, 5, 1, 17))
+        err = rng.choice((None, None, 2, 5, 1, 17, 18, 19, 255, -1, 2**31 - 1))
         if level in rig.AUTH_LEVELS and r < 0.12:
             run_case(R, level, op, "reboot", 0, None, step_seed, True)
         elif r < 0.45:
